@@ -202,6 +202,7 @@ def check_C01(tier):
     for alpha, tab in [("ring", "default"), ("frag", "default"), ("caps", "tight"), ("branch", "wide")]:
         gen_replay(rep, "%s_%s" % (alpha, tab), DEC[alpha], TABLES[tab], m, fastjit=quick, classify=classify_C01)
     coverage_run(rep, DEC["frag"] + ["[epsilon]", "[Foo]"], "default", 3)
+    apalache_inductive(rep)
     trace_C01(rep, quick)
     table_sweep(rep, quick)
     sanitizer_clause(rep, quick)
@@ -258,6 +259,48 @@ def trace_C01(rep, quick):
             else:
                 rep.violation("decoder output needs a ring label above 99 (%d symbols)" % len(recs[tid]["inp"]),
                               {"tokens": recs[tid]["inp"], "table": TABLES[tab]})
+
+
+def apalache_inductive(rep):
+    """Unbounded-length argument for the design: StateBound is shown inductive for the sequence-free
+    abstraction spec/apalache/DeriveAbs.tla with Apalache (base case, inductive step, Valence as a
+    consequence) and a negative control (branch init state off by one) must be refuted."""
+    import os
+    import shutil
+    import subprocess
+    from common import SPEC_DIR, scratch
+    if shutil.which("apalache-mc") is None:
+        rep.notes["apalache"] = "apalache-mc not found: inductive argument skipped"
+        return
+    work = scratch("apa_")
+    src = open(os.path.join(SPEC_DIR, "apalache", "DeriveAbs.tla")).read()
+    open(os.path.join(work, "DeriveAbs.tla"), "w").write(src)
+    neg = src.replace("MODULE DeriveAbs", "MODULE DeriveAbsNeg").replace("LET b == Min2(fstate[f] - 1, o)", "LET b == Min2(fstate[f], o)")
+    open(os.path.join(work, "DeriveAbsNeg.tla"), "w").write(neg)
+    runs = [("base case Init => IndInv", "DeriveAbs.tla", ["--init=Init", "--inv=IndInv", "--length=0"], True),
+            ("inductive step IndInv /\\ Next => IndInv'", "DeriveAbs.tla", ["--init=IndInit", "--inv=IndInv", "--length=1"], True),
+            ("IndInv => Valence", "DeriveAbs.tla", ["--init=IndInit", "--inv=Valence", "--length=0"], True),
+            ("negative control (branch init state not decremented) is refuted", "DeriveAbsNeg.tla",
+             ["--init=IndInit", "--inv=IndInv", "--length=1"], False)]
+    res = []
+    for what, mod, args, want_ok in runs:
+        try:
+            p_ = subprocess.run(["apalache-mc", "check"] + args + ["--out-dir=" + os.path.join(work, "out"), mod], cwd=work,
+                                stdout=subprocess.PIPE, stderr=subprocess.STDOUT, timeout=900, text=True)
+        except subprocess.TimeoutExpired:
+            rep.notes["apalache"] = "timed out on: " + what
+            return
+        ok = "The outcome is: NoError" in p_.stdout
+        err = "The outcome is: Error" in p_.stdout
+        if not ok and not err:
+            rep.notes["apalache"] = "apalache did not run (%s): %s" % (what, p_.stdout[-300:])
+            return
+        res.append({"obligation": what, "discharged": ok if want_ok else err})
+        if want_ok and err:
+            rep.violation("specification-level: Apalache refutes '%s' for DeriveAbs" % what, {"log": p_.stdout[-1500:]})
+        if not want_ok and ok:
+            raise MachineryError("negative control of the inductive argument was not refuted")
+    rep.notes["apalache_inductive_invariant"] = res
 
 
 def table_sweep(rep, quick):
